@@ -30,4 +30,11 @@ PROPS = {
         assumptions=["transport delivers the bytes in order, in non-empty reads (fewer than 100 consecutive empty reads are shown "
                      "invisible by an oracle on the implementation; 100 give InternalError)"],
     ),
+    "C03": dict(
+        modules=["Drpc.Stream.Conc"],
+        suites=["stream"],
+        rule="stream suite (work in progress)",
+        trusted=COMMON_TRUST,
+        assumptions=[],
+    ),
 }
